@@ -172,6 +172,25 @@ pub fn run<W: Write>(out: &mut W, seed: u64, n: usize, _opts: &HashMap<String, S
             id += 1;
             continue;
         }
+        if rng.chance(7) {
+            // a real diff of a generated file (all header dialects), 30% of them with a hunk that replaces a
+            // block of 66-130 lines by as many others
+            use crate::wsgen::*;
+            let big = rng.chance(30);
+            let old = if big { big_content(&mut rng) } else { rand_content(&mut rng, 12, true) };
+            let ops = if big { big_script(&mut rng, &old) } else { rand_script(&mut rng, &old, true) };
+            let c = *rng.pick(&[0usize, 1, 2, 3]);
+            let hs = render_hunks(&ops, c, None, 0);
+            if count_hunks(&hs) > 0 {
+                let p = *rng.pick(&[0usize, 1, 1, 2]);
+                b.extend_from_slice(&render_header(&HeaderSpec { old: Some("d/f"), new: Some("d/f"), dialect: pick_dialect(&mut rng), p, rename: false,
+                    old_mode: None, new_mode: None, creating: false, deleting: false, has_hunks: true }));
+                b.extend_from_slice(&hs);
+                emit(out, id, &b, p);
+                id += 1;
+                continue;
+            }
+        }
         for _ in 0..k { b.extend_from_slice(LINES[rng.below(LINES.len())]); }
         let r = rng.below(100);
         if r < 10 && !b.is_empty() { let cut = rng.below(b.len() + 1); b.truncate(cut); }
